@@ -40,7 +40,7 @@ def gen_cases(tier, seed):
     return cases
 
 
-def run_generation(res, cfg, jds, sched, oracles, alg_rec=None, jds_live=None):
+def run_generation(res, cfg, jds, sched, oracles, alg_rec=None, jds_live=None, np_dtype=None):
     """one generation.  alg_rec = (algorithm object, its Recorder, class) to REUSE a generator object across calls;
     jds_live = the caller's own list object, handed over as it is (so that in-place edits between calls are what the
     generator sees); the oracle works from a private deep copy taken just before the call."""
@@ -56,8 +56,18 @@ def run_generation(res, cfg, jds, sched, oracles, alg_rec=None, jds_live=None):
     tap = RandomTap(seed=val if kind == "seed" else 0, preset={"shuffle": val} if kind == "preset" else None, keep_log=False)
     jds_in = copy.deepcopy(jds) if jds_live is None else jds_live
     before = copy.deepcopy(jds_in)
-    with installed(tap, "fast", "custom"):
-        out = sut(f"{cls.__name__}.random_clustered_graph", alg.random_clustered_graph, jds_in)
+    if np_dtype is not None and jds_live is None:
+        # the sequence as a numpy table of a narrow integer type (a degree table loaded from a file): degrees fit the type, column sums need not
+        import numpy as np
+        arr = np.array([list(r) for r in jds_in], dtype=np_dtype)
+        with installed(tap, "fast", "custom"):
+            out = sut(f"{cls.__name__}.random_clustered_graph(ndarray {np_dtype})", alg.random_clustered_graph, arr)
+        jds_in = [tuple(r) for r in arr.tolist()]
+        before = [tuple(r) for r in before]
+        res.count("generations_from_a_numpy_table")
+    else:
+        with installed(tap, "fast", "custom"):
+            out = sut(f"{cls.__name__}.random_clustered_graph", alg.random_clustered_graph, jds_in)
     res.count("generations")
     res.count("shuffle_calls", tap.counts["shuffle"])
     res.count(cfg["flavour"])
@@ -88,7 +98,8 @@ def run_case(case, oracles=("conservation",), custom_share=0.35, force_special=F
         cfg = gen.make_custom_config(rng, force=force_special)
     else:
         cfg = gen.make_fast_config(rng, allow_empty="columns" not in oracles, shared_names=True)
-    jds, inst = gen.make_jds(rng, cfg, nmax=case.get("nmax", 40), heavy=rng.random() < 0.2)
+    want_table = rng.random() < 0.15
+    jds, inst = gen.make_jds(rng, cfg, nmax=case.get("nmax", 40) if not want_table else 160, heavy=rng.random() < (0.2 if not want_table else 0.7))
     if any(sum(jd) == 0 for jd in jds):
         res.count("zero_degree_cases")
     if cfg["flavour"] == "custom" and any(len(m[0]) > 1 for m in cfg["motifs"]):
@@ -101,6 +112,15 @@ def run_case(case, oracles=("conservation",), custom_share=0.35, force_special=F
     if cfg.get("decoy"):
         res.count("decoy_model_configured_first_cases")
     reuse = rng.random() < 0.6
+    np_dtype = None
+    mx = max((x for jd in jds for x in jd), default=0)
+    if want_table:
+        reuse = False
+    if not reuse and jds and len(jds[0]) and (want_table or rng.random() < 0.2):
+        np_dtype = rng.choice([t for t, cap in (("int8", 127), ("uint8", 255), ("int16", 32767), ("uint16", 65535), ("int64", 2 ** 62)) if mx <= cap][:2 if want_table else 3])
+        tot = max(sum(jd[c] for jd in jds) for c in range(len(jds[0])))
+        if tot > {"int8": 127, "uint8": 255, "int16": 32767, "uint16": 65535, "int64": 2 ** 62}[np_dtype]:
+            res.count("numpy_tables_whose_column_sum_exceeds_the_element_type")
     alg_rec = None
     live = None
     history = []
@@ -162,7 +182,7 @@ def run_case(case, oracles=("conservation",), custom_share=0.35, force_special=F
             finally:
                 alg_rec[1].on_build = None
             history.append("generation aborted by a raising build callback")
-        r = run_generation(res, cfg, jds if live is None else list(live), sched, oracles, alg_rec=alg_rec, jds_live=live)
+        r = run_generation(res, cfg, jds if live is None else list(live), sched, oracles, alg_rec=alg_rec, jds_live=live, np_dtype=np_dtype)
         if r is None:
             break
         for c in r[0].calls:
